@@ -12,7 +12,7 @@ CHECKS = {
  "C15": ("model_checking", "E1 enum",
          "reference function (executable model) + total replay: every enumerated ResolveResult is run through the real Targets and compared with the model; byte-level snapshot oracle for purity",
          "All ResolveResults over a small but complete alphabet (1 record: full per-record domain; 0,2,3 records: reduced domain) x address lists x Additional maps x ports x 6 networks x early-termination points are evaluated on the real Targets and compared with an executable reference; a snapshot of every reachable byte including spare slice capacity is compared before/after. Every model trace is replayed against the implementation.",
-         "reference function written from the property text/RFC 9460; ALPN compared as a set; records naming a target without known addresses may contribute nothing or their hints", "§3 C15"),
+         "reference function written from the property text/RFC 9460; ALPN compared as a set; records naming a target without known addresses may contribute nothing or their hints; unguarded package-level state between yields is only seen by a supplementary (sampled, reported separately, never counted as exploration) free-running -race pass over enumerations of different results", "§3 C15"),
  "C13": ("exploration", "E1 enum",
          "exhaustive small-scope enumeration of messages; differential comparison with an independent RFC 1035/9460 codec (dnsref) and x/net dnsmessage in both directions",
          "All header flag combinations, a name pool covering 0/1/2/127 labels and label lengths 1/63 in every name position, every subset of HTTPS parameters, OPT option lists, every message with <=2 records per section over record pools (package-built and reference-built, uncompressed and maximally compressed), extended RCODE grid and AddPadding for every question-name length 1..253 x OPT states are enumerated completely; each case is round-tripped and cross-decoded by two independent codecs.",
@@ -63,7 +63,7 @@ CHECKS = {
          "model in checks/c14 (chains <=3 must be followed, longer ones may be abandoned; loops end in fallback or error); mixed alias/service RRsets excluded", "§3 C14"),
  "C16": ("model_checking", "E4 hist + E3 gosched",
          "history enumeration against a map-based cache model (virtual clock, in-memory DoH, every history up to the depth bound) + controlled-scheduler exploration of concurrent lookups + deterministic write-footprint oracle",
-         "Every history of length 6 (thorough 8) over 11 events (two lookups, three clock advances, NXDOMAIN for the HTTPS query only, zone version change, three failure toggles, re-sizing the live cache) is replayed on a fresh Resolver and compared with the model's per-key prediction of upstream queries and admissible content versions; concurrent lookups on colliding keys are explored under the controlled scheduler; Targets/Resolve on shared results are checked byte-for-byte for writes into shared memory.",
+         "Every history of length 6 (thorough 8) over 11 events (two lookups, three clock advances, NXDOMAIN for the HTTPS query only, zone version change, three failure toggles, re-sizing the live cache) is replayed on a fresh Resolver and compared with the model's per-key prediction of upstream queries and admissible content versions; concurrent lookups on colliding keys are explored under the controlled scheduler (incl. scenarios in which the wall clock steps forward by 10 s at a point the explorer chooses; every clock reading of the resolver is logged and a lookup that did not fetch an answer itself must have seen it within its lifetime); Targets/Resolve on shared results are checked byte-for-byte for writes into shared memory.",
          "clock/transport owned via verif hooks; responses without records carry no TTL bound; plain data races are covered by the footprint oracle and a supplementary (sampled, reported separately, never counted as exploration) free-running -race pass", "§3 C16"),
  "C20": ("model_checking", "E4 hist + E2 envx + cfmem",
          "history enumeration of publishes against a map-based model over an in-memory fake of the Cloudflare API; API failures as single deviations at every request index",
@@ -71,7 +71,7 @@ CHECKS = {
          "one HTTPS record per name and zone; fake API follows Cloudflare v4 list semantics (count = items on the page)", "§3 C20"),
  "C18": ("model_checking", "E3 gosched",
          "stateless model checking of the real Dial under a controlled scheduler: sources rewritten at check time (goroutines, channels, select, WaitGroup, context, timers -> shims), all schedules up to a deviation bound in virtual time, monitors over the event log",
-         "For every scenario of the grid (1..3 (4) targets x 13 per-target plans (incl. an ECH rejection followed by a hanging retry, a success that ignores its deadline, a host name with slow DNS lookups, a second name on the previous target's address) x MaxConcurrency x delay/timeout x caller cancellation time, plus RequireECH scenarios whose targets come from one resolution result with some records lacking an ech parameter) every schedule with at most 1 (2) deviations from the canonical one (2 in the quick tier for scenarios with at most 2 targets) is executed on the real code; monitors check start order, in-flight bound, staggering (delay or one reported failure per early start), per-attempt timeout, first success wins, every other established connection closed exactly once, joined errors, prompt return on cancellation, cancelled context for attempts after the decision, and termination of every goroutine.",
+         "For every scenario of the grid (1..3 (4) targets x 13 per-target plans (incl. an ECH rejection followed by a hanging retry, a success that ignores its deadline, a host name with slow DNS lookups, a second name on the previous target's address) x MaxConcurrency x delay/timeout x caller cancellation time, plus RequireECH scenarios whose targets come from one resolution result with some records lacking an ech parameter, and the small scenarios again with the Dialer instantiated for an interface connection type, plus failures whose error wraps context.Canceled) every schedule with at most 1 (2) deviations from the canonical one (2 in the quick tier for scenarios with at most 2 targets) is executed on the real code; monitors check start order, in-flight bound, staggering (delay or one reported failure per early start), per-attempt timeout, first success wins, every other established connection closed exactly once, joined errors, prompt return on cancellation, cancelled context for attempts after the decision, and termination of every goroutine.",
          "computation takes zero virtual time; sequentially consistent memory at synchronisation granularity; IP-literal addresses; scripted DialFunc honouring its context; executions per scenario capped (cap reported when hit)", "§3 C18"),
  "C10": ("model_checking", "E3 gosched",
          "stateless model checking of the real NewConn under a controlled scheduler (sources rewritten at check time), all schedules up to a deviation bound in virtual time",
@@ -80,7 +80,7 @@ CHECKS = {
  "C17": ("fault_enumeration", "E1 enum + E2 envx",
          "exhaustive enumeration of resolution worlds and caller configurations; every tree of per-attempt outcomes (ok / error / ECH rejection with and without retry configs) explored by re-execution; oracle on the DialFunc argument log",
          "9 resolution worlds (served by an in-memory DoH responder) x 5 caller configs x RequireECH x PublicName x 3 address forms; for each, every outcome vector of the connection attempts is executed on the real Dial; every DialFunc invocation is checked for RequireECH, caller-supplied list/ServerName preservation, per-record ECH list, host-derived server name, exactly one retry with exactly the server's retry configs, and the caller's tls.Config is compared before/after.",
-         "real goroutines (MaxConcurrency 1 makes the log sequential; failures re-run 5x); expected per-address ECH lists and admissible dial addresses written by hand per world (independent of ResolveResult.Targets)", "§3 C17"),
+         "real goroutines (MaxConcurrency 1 makes the log sequential; failures re-run 5x); expected per-address ECH lists and admissible dial addresses written by hand per world (independent of ResolveResult.Targets); the DialFunc that NewDialer installs is replaced by a fake in every scenario and only exercised by a supplementary (sampled, reported separately) -race pass", "§3 C17"),
  "C19": ("model_checking", "E1 enum + E4 hist",
          "exhaustive decision table for the HTTP/3 choice and record filtering against a reference function; every request history up to the depth bound through the real net/http stack over in-memory TLS servers against a reference",
          "Every set of 1..3 service-mode records over 6 ALPN lists x no-default-alpn x HTTP/3 round-tripper absent/failing/answering is resolved through the in-memory DoH responder and dialed through the context-carried resolver; the protocol choice and the records reaching the dialer are compared with the model. Every request sequence of length <=3 (4) over 8 origins x 3 zones, with and without Host override, is executed with the real http.Client and Transport; plaintext refusal, upgrade, SNI/ServerName, Host header, dial address/port, resp.Request identity and per-connection origin isolation are checked.",
